@@ -1,0 +1,149 @@
+/*
+ * Verification facade (cargo feature `verif`): text round trip of the two option structures a
+ * client builder consumes (ConnectOptions, MqttClientOptions).  Their fields are pub(crate), so an
+ * out-of-crate harness (e.g. the one checking the AWS builder glue of gneiss-mqtt-aws) cannot
+ * read them back without these accessors.  Add-only; nothing in the crate depends on this file.
+ *
+ * ConnectOptions (same token order as `engine::connect_options_from_tokens`):
+ *   keepalive(-|n) rejoin(0=PostSuccess|1=Always|2=Never) clientid username password sei rri rpi
+ *   recvmax tam maxpkt willdelay up (NOWILL | WILL <publish fields>)
+ *
+ * MqttClientOptions:
+ *   offline(0..3) connect_timeout_ns ping_timeout_ns resolver jitter(0=None|1=Uniform) base_ns max_ns
+ *   stability_ns protocol(5|311) drain(-|0=None|1=OneAtATime) retries(-|n)
+ *   resolver on input: default|null|manual|lru:<n>; on output: `-` or `f<address of the factory Arc>`
+ *   (two outputs name the same factory iff the tokens are equal; `factory_token` gives the token of
+ *   an input so that preservation can be checked).
+ */
+
+use std::time::Duration;
+
+use crate::client::config::*;
+use crate::mqtt::*;
+use crate::verif::engine::{connect_options_from_tokens, offline_policy_from_token, resolver_from_token};
+use crate::verif::text::*;
+
+/// Parses connect options (token order above).
+pub fn connect_options_from_text(tokens: &[&str]) -> TextResult<ConnectOptions> {
+    connect_options_from_tokens(tokens)
+}
+
+/// Renders every field of a ConnectOptions value (token order above).
+pub fn connect_options_to_text(options: &ConnectOptions) -> String {
+    // the shared fields are rendered by the CONNECT packet printer: a field-by-field copy, no defaults applied
+    let packet = ConnectPacket {
+        keep_alive_interval_seconds: 0,
+        clean_start: false,
+        client_id: options.client_id.clone(),
+        username: options.username.clone(),
+        password: options.password.clone(),
+        session_expiry_interval_seconds: options.session_expiry_interval_seconds,
+        request_response_information: options.request_response_information,
+        request_problem_information: options.request_problem_information,
+        receive_maximum: options.receive_maximum,
+        topic_alias_maximum: options.topic_alias_maximum,
+        maximum_packet_size_bytes: options.maximum_packet_size_bytes,
+        authentication_method: None,
+        authentication_data: None,
+        will_delay_interval_seconds: options.will_delay_interval_seconds,
+        will: options.will.clone(),
+        user_properties: options.user_properties.clone(),
+    };
+    let text = packet_to_text(&MqttPacket::Connect(packet));
+    let toks: Vec<&str> = text.split_whitespace().collect();
+    // CONNECT keepalive clean | clientid username password sei rri rpi recvmax tam maxpkt | authmethod authdata | willdelay up will...
+    let keep_alive = match options.keep_alive_interval_seconds { Some(k) => k.to_string(), None => "-".to_string() };
+    let rejoin = match options.rejoin_session_policy {
+        RejoinSessionPolicy::PostSuccess => "0",
+        RejoinSessionPolicy::Always => "1",
+        RejoinSessionPolicy::Never => "2",
+    };
+    let mut out: Vec<String> = vec![keep_alive, rejoin.to_string()];
+    out.extend(toks[3..12].iter().map(|t| t.to_string()));
+    out.extend(toks[14..].iter().map(|t| t.to_string()));
+    out.join(" ")
+}
+
+fn duration_from_nanos_token(token: &str) -> TextResult<Duration> {
+    let ns = token.parse::<u128>().map_err(|_| format!("bad duration {}", token))?;
+    let secs = ns / 1_000_000_000;
+    if secs > u64::MAX as u128 {
+        return Err(format!("duration out of range {}", token));
+    }
+    Ok(Duration::new(secs as u64, (ns % 1_000_000_000) as u32))
+}
+
+fn opt_u32(token: &str) -> TextResult<Option<u32>> {
+    if token == "-" { Ok(None) } else { token.parse::<u32>().map(Some).map_err(|_| format!("bad number {}", token)) }
+}
+
+/// Parses client options (token order above).
+pub fn client_options_from_text(tokens: &[&str]) -> TextResult<MqttClientOptions> {
+    if tokens.len() != 11 {
+        return Err("client options: need 11 tokens".to_string());
+    }
+    Ok(MqttClientOptions {
+        offline_queue_policy: offline_policy_from_token(tokens[0])?,
+        connect_timeout: duration_from_nanos_token(tokens[1])?,
+        ping_timeout: duration_from_nanos_token(tokens[2])?,
+        outbound_alias_resolver_factory: resolver_from_token(tokens[3])?,
+        reconnect_options: ReconnectOptions {
+            reconnect_period_jitter: match tokens[4] {
+                "0" => ExponentialBackoffJitterType::None,
+                "1" => ExponentialBackoffJitterType::Uniform,
+                _ => { return Err("bad jitter".to_string()); }
+            },
+            base_reconnect_period: duration_from_nanos_token(tokens[5])?,
+            max_reconnect_period: duration_from_nanos_token(tokens[6])?,
+            reconnect_stability_reset_period: duration_from_nanos_token(tokens[7])?,
+        },
+        protocol_mode: match tokens[8] {
+            "5" => ProtocolMode::Mqtt5,
+            "311" => ProtocolMode::Mqtt311,
+            _ => { return Err("bad protocol mode".to_string()); }
+        },
+        post_reconnect_queue_drain_policy: match tokens[9] {
+            "-" => None,
+            "0" => Some(PostReconnectQueueDrainPolicy::None),
+            "1" => Some(PostReconnectQueueDrainPolicy::OneAtATime),
+            _ => { return Err("bad drain policy".to_string()); }
+        },
+        max_interrupted_retries: opt_u32(tokens[10])?,
+    })
+}
+
+/// Identity token of the outbound alias resolver factory of a client options value.
+pub fn factory_token(options: &MqttClientOptions) -> String {
+    match &options.outbound_alias_resolver_factory {
+        None => "-".to_string(),
+        Some(factory) => format!("f{:x}", std::sync::Arc::as_ptr(factory) as *const () as usize),
+    }
+}
+
+/// Renders every field of an MqttClientOptions value (token order above).
+pub fn client_options_to_text(options: &MqttClientOptions) -> String {
+    let offline = match options.offline_queue_policy {
+        OfflineQueuePolicy::PreserveAll => "0",
+        OfflineQueuePolicy::PreserveAcknowledged => "1",
+        OfflineQueuePolicy::PreserveQos1PlusPublishes => "2",
+        OfflineQueuePolicy::PreserveNothing => "3",
+    };
+    let jitter = match options.reconnect_options.reconnect_period_jitter {
+        ExponentialBackoffJitterType::None => "0",
+        ExponentialBackoffJitterType::Uniform => "1",
+    };
+    let protocol = match options.protocol_mode {
+        ProtocolMode::Mqtt5 => "5",
+        ProtocolMode::Mqtt311 => "311",
+    };
+    let drain = match options.post_reconnect_queue_drain_policy {
+        None => "-",
+        Some(PostReconnectQueueDrainPolicy::None) => "0",
+        Some(PostReconnectQueueDrainPolicy::OneAtATime) => "1",
+    };
+    let retries = match options.max_interrupted_retries { Some(n) => n.to_string(), None => "-".to_string() };
+    format!("{} {} {} {} {} {} {} {} {} {} {}",
+        offline, options.connect_timeout.as_nanos(), options.ping_timeout.as_nanos(), factory_token(options), jitter,
+        options.reconnect_options.base_reconnect_period.as_nanos(), options.reconnect_options.max_reconnect_period.as_nanos(),
+        options.reconnect_options.reconnect_stability_reset_period.as_nanos(), protocol, drain, retries)
+}
